@@ -18,6 +18,7 @@ import (
 	"fmt"
 	"runtime"
 	"sort"
+	"time"
 
 	"github.com/ontio/ontology/core/store/leveldbstore"
 	"github.com/ontio/ontology/core/store/overlaydb"
@@ -167,6 +168,8 @@ func persisted(k []byte) bool {
 	return true
 }
 
+var watchdog *kvl.Watchdog
+
 func main() {
 	r := vf.NewRun("C03", "exploration",
 		"each case: a pool of 1..30 keys (0..40 bytes over a 5-letter alphabet, built by extending/varying earlier keys so prefixes are shared) and a random history of 1..400 put/delete/put-empty/same-value-overwrite ops on a block overlay over a pre-populated store; its final map is then re-created by 7 differently shaped op sequences (sorted, permuted, overwrite-then-restore, delete-then-recreate, same value twice, via CacheDB transactions with discarded ones, after Reset); distinct by the final map; non-trivial when >=2 keys were touched and one of them was overwritten or deleted")
@@ -194,10 +197,12 @@ func main() {
 		r.Finish()
 	}
 
+	watchdog = kvl.NewWatchdog(r, 60*time.Second)
 	nCases := vf.N(20000, 400000)
 	vf.Parallel(nCases, runtime.NumCPU(), func(i int) {
 		runCase(r, store, rng.Sub(uint64(i)), i)
 	})
+	watchdog.Stop()
 
 	for _, c := range []string{"final_has_tombstone", "final_tombstone_on_persisted_key", "final_tombstone_on_unpersisted_key",
 		"history_overwrite_other_value", "history_overwrite_same_value", "history_delete_then_recreate", "history_put_empty_value",
@@ -326,7 +331,15 @@ func runCase(r *vf.Run, store *leveldbstore.LevelDBStore, rng *vf.RNG, idx int) 
 		return s
 	}
 	// check runs one sequence and compares with the model; returns hash and write set.
+	var curVariant string
+	var curSteps []step
+	beat := watchdog.Begin(func() interface{} {
+		return map[string]interface{}{"case": idx, "history": stepStrings(hist), "stuck_in_variant": curVariant, "variant_ops": stepStrings(curSteps)}
+	})
+	defer beat.End()
 	check := func(variant string, steps []step) ([32]byte, []kvl.KV, bool) {
+		curVariant, curSteps = variant, steps
+		defer beat.Tick()
 		var hash [32]byte
 		var ws []kvl.KV
 		var ov *overlaydb.OverlayDB
